@@ -8,7 +8,9 @@ import (
 	"crypto/sha256"
 	"encoding/hex"
 	"fmt"
+	frbn254 "github.com/consensys/gnark-crypto/ecc/bn254/fr"
 	"hash"
+	"math/big"
 	"reflect"
 	"strings"
 
@@ -253,6 +255,20 @@ func accAll(r *vlib.Run, g string, hs hspec, n int) {
 		tam("root-nil", nil, cpSet(proof), uint64(i))
 		// every proof element
 		for k := range proof {
+			// field hashers: the other 32-byte string with the same residue (value + q). The hasher must not treat it as the
+			// original (the library turns a refusing hasher into a panic: refusing by panic is not an acceptance)
+			if hs.leafSize == 32 && len(proof[k]) == 32 {
+				v := new(big.Int).SetBytes(proof[k])
+				v.Add(v, frbn254.Modulus())
+				if v.BitLen() <= 256 {
+					p := cpSet(proof)
+					v.FillBytes(p[k])
+					r.Add(1)
+					if ok, pan := verify(cp(root), p, uint64(i), uint64(n)); pan == "" && ok {
+						r.FailIn(g, "acc/"+hs.name+"/accepted/noncanonical-alias", id, fmt.Sprintf("proof accepted after element %d was replaced by value + q (another byte string) n=%d i=%d", k, n, i), map[string]any{"n": n, "i": i, "tamper": "noncanonical-alias"})
+					}
+				}
+			}
 			p := cpSet(proof)
 			p[k][len(p[k])-1] ^= 1
 			cls := "sibling-bitflip"
@@ -336,7 +352,10 @@ func histories(r *vlib.Run, g string, hs hspec, nmax int) {
 		dumpTree := dumpTree
 		if i == nmax {
 			// plain tree (no SetIndex): the proof set is not observable (Prove panics), compare stack and counters only
-			dumpTree = func(t *merkletree.Tree) string { d := dumpT(t); return d[:strings.Index(d, " ps=[")] + d[strings.Index(d, "] stack="):] }
+			dumpTree = func(t *merkletree.Tree) string {
+				d := dumpT(t)
+				return d[:strings.Index(d, " ps=[")] + d[strings.Index(d, "] stack="):]
+			}
 		}
 		for p := 0; p <= nmax; p++ {
 			t := build(p)
